@@ -10,6 +10,7 @@ from .registries import Handler
 
 # algebraic classes of aten ops (trusted table; an op that is not listed makes the analysis undecided)
 MOVE_OPS = {  # pure data movement: commute with a per-tensor scale
+    "aten.diagonal", "aten.unfold", "aten.split_with_sizes", "aten.unbind", "aten.as_strided",  # select / gather elements of the operand, as views
     "aten.expand", "aten.permute", "aten.select", "aten.slice", "aten.unsqueeze", "aten.squeeze", "aten.view", "aten._unsafe_view",
     "aten.reshape", "aten.transpose", "aten.split", "aten.split_with_sizes", "aten.unbind", "aten.chunk", "aten.narrow", "aten.flip", "aten.flatten",
     "aten.contiguous", "aten.alias", "aten.movedim", "aten.t",
